@@ -102,3 +102,7 @@ impl core::convert::From<io::Error> for anyhow::Error {
     #[verifier::external_body]
     fn from(e: io::Error) -> anyhow::Error { unimplemented!() }
 }
+
+/// R5c: `Ipv4Addr::UNSPECIFIED` (0.0.0.0)
+#[verifier::external_body]
+pub fn verif_ipv4_unspecified() -> (r: Ipv4Addr) { Ipv4Addr::UNSPECIFIED }
